@@ -138,6 +138,11 @@ def build_cases(quick):
                         inmem.append(dict(kind="rej", N=N, ll=list(prof), ucodes=list(uc), path="inmem",
                                           opts=dict(max_posterior_samples=mp, n_linear_samples=nlin,
                                                     return_all_logprobs=(mp is None and nlin == 1))))
+                        if N >= 2 and nlin == 1 and mp in (None, 2):
+                            # the batching option given on the in-memory path (documented as unused there): the rule is still
+                            # "against the maximum over ALL evaluated samples"
+                            inmem.append(dict(kind="rej", N=N, ll=list(prof), ucodes=list(uc), path="inmem",
+                                              opts=dict(max_posterior_samples=mp, n_linear_samples=1, n_batches=2 if mp is None else N)))
     # file paths: options that only exist there
     NsF = (1, 2, 3) if quick else (1, 2, 3, 4)
     for N in NsF:
